@@ -348,6 +348,18 @@ class AsyncMachine(Machine):
         for model in listify(model):
             self.add_model(model)
 
+    # the per-model queues are keyed by id(model), which changes with pickling: store them with their models
+    def __getstate__(self):
+        state = {k: v for k, v in self.__dict__.items()}
+        if self.has_queue == 'model':
+            state['_transition_queue_dict'] = [(mod, self._transition_queue_dict[id(mod)]) for mod in self.models]
+        return state
+
+    def __setstate__(self, state):
+        self.__dict__.update(state)
+        if self.has_queue == 'model':
+            self._transition_queue_dict = {id(mod): queue for mod, queue in self._transition_queue_dict}
+
     def add_model(self, model, initial=None):
         super().add_model(model, initial)
         if self.has_queue == 'model':
